@@ -5,6 +5,8 @@ import (
 	"runtime"
 	"sync"
 	"sync/atomic"
+
+	"github.com/pgavlin/dawn/internal/verifhook"
 )
 
 type CyclicDependencyError string
@@ -57,6 +59,7 @@ func newTarget(label string) *target {
 }
 
 func (t *target) start(r *runner) {
+	verifhook.Yield("start.lock")
 	t.m.Lock()
 	if t.status != statusIdle {
 		t.m.Unlock()
@@ -66,10 +69,14 @@ func (t *target) start(r *runner) {
 	t.status = statusRunning
 	t.m.Unlock()
 
+	verifhook.Yield("start.spawn")
+	verifhook.Spawn()
 	go t.run(r)
 }
 
 func (t *target) wait() error {
+	verifhook.Block("wait")
+	defer verifhook.Unblock("wait")
 	t.m.Lock()
 	defer t.m.Unlock()
 
@@ -83,6 +90,8 @@ func (t *target) wait() error {
 }
 
 func (t *target) run(r *runner) {
+	verifhook.Begin("run")
+	defer verifhook.End()
 	unlock := func() {
 		t.m.Unlock()
 		t.c.Broadcast()
@@ -90,9 +99,11 @@ func (t *target) run(r *runner) {
 
 	r.gate.enter()
 	defer r.gate.exit()
+	verifhook.Yield("run.entered")
 
 	// Load the target.
 	tt, err := r.targetLoader.LoadTarget(t.label)
+	verifhook.Yield("run.loaded")
 	if err != nil {
 		t.m.Lock()
 		defer unlock()
@@ -107,6 +118,7 @@ func (t *target) run(r *runner) {
 	if err = t.target.Evaluate(&engine{root: t, runner: r}); err != nil {
 		status = statusFailed
 	}
+	verifhook.Yield("run.evaluated")
 
 	t.m.Lock()
 	defer unlock()
@@ -119,6 +131,7 @@ type engine struct {
 }
 
 func (e *engine) check(dep *target) error {
+	verifhook.Yield("check")
 	if dep == e.root {
 		return CyclicDependencyError(fmt.Sprintf("cyclic dependency on %v", dep.label))
 	}
@@ -139,17 +152,21 @@ func (e *engine) checkDeps(deps []*target) error {
 }
 
 func (e *engine) EvaluateTargets(labels ...string) []Result {
+	verifhook.Yield("eval.enter")
 	e.runner.gate.exit()
 	defer e.runner.gate.enter()
 
 	targets := make([]*target, len(labels))
 	for i, label := range labels {
 		targets[i] = e.runner.getTarget(label)
+		verifhook.Yield("eval.got")
 		targets[i].start(e.runner)
 	}
 
+	verifhook.Yield("eval.publish")
 	e.root.waiting.Swap(&targets)
 	defer e.root.waiting.Swap(nil)
+	verifhook.Yield("eval.published")
 
 	results := make([]Result, len(targets))
 	if err := e.checkDeps(targets); err != nil {
@@ -159,8 +176,10 @@ func (e *engine) EvaluateTargets(labels ...string) []Result {
 		}
 		return results
 	}
+	verifhook.Yield("eval.checked")
 
 	for i, t := range targets {
+		verifhook.Yield("eval.wait")
 		results[i].Error = t.wait()
 		results[i].Target = t.target
 	}
@@ -180,6 +199,8 @@ func newGate(capacity int) *gate {
 }
 
 func (g *gate) enter() {
+	verifhook.Block("gate.enter")
+	defer verifhook.Unblock("gate.enter")
 	g.m.Lock()
 	defer g.m.Unlock()
 
@@ -190,6 +211,7 @@ func (g *gate) enter() {
 }
 
 func (g *gate) exit() {
+	verifhook.Yield("gate.exit")
 	g.m.Lock()
 	defer g.m.Unlock()
 
